@@ -448,12 +448,16 @@ Proof.
 Qed.
 Print Assumptions C01_excludes_never_assignable.
 
-(* (repaired) the VRF a pool is filed under depends on pools of its own family only *)
-Theorem C01_vrf_per_family :
-  forall f g pf st p k, f <> g ->
-    vrf_of Repaired (init_pool Repaired f pf st p) g k = vrf_of Repaired st g k.
-Proof. exact init_pool_vrf_other. Qed.
-Print Assumptions C01_vrf_per_family.
+(* in every reachable registry state the VRF a pool is filed under is exactly what the configuration of
+   ITS OWN family says: the last non-empty VRF configured for that "profile/pool" key in a pool list of
+   that family ([cfg_vrf] is a function of the configuration only).  With C01_vrf_confined_unless_override:
+   a non-override answer comes from a pool whose own configuration names the subscriber's VRF. *)
+Theorem C01_vrf_is_configured :
+  forall pfs ks st evs f k,
+    reg_run_from Repaired (reg_init Repaired pfs) ks = Some (st, evs) ->
+    vrf_of Repaired st f k = cfg_vrf f k pfs.
+Proof. exact reachable_vrf. Qed.
+Print Assumptions C01_vrf_is_configured.
 
 (* the code as found keeps ONE pool->VRF map keyed "profile/pool": an IA_NA pool in VRF 7 makes the
    equally named PD pool (configured without VRF) serve VRF-7 subscribers and refuse default-VRF ones *)
